@@ -29,9 +29,9 @@ Theorem C20_live_bytes_bounded :
     (forall s c ml, honest s -> honest (fst (dstep s c ml))) ->
     (forall s c ml, honest s -> 0 <= ml -> zlen (snd (dstep s c ml)) <= ml) ->
     forall (st st' : dstate S) (ml : Z) (rd : nat) (out : bytes),
-      clean st -> last_ok S honest (stages st) -> 0 <= ml ->
+      clean st -> last_ok honest (stages st) -> 0 <= ml ->
       decompress dstep st ml rd = Ok (st', out) ->
-      clean st' /\ last_ok S honest (stages st') /\
+      clean st' /\ last_ok honest (stages st') /\
       zlen out <= ml /\ zlen (buf st') <= ml /\
       managed st st' out <= 2 * ml + Z.max 0 (block_size st) /\
       live held st st' out <= 2 * ml + Z.max 0 (block_size st) + sum_held held (stages st') /\
@@ -45,9 +45,9 @@ Theorem C20_clean_reachable :
     (forall s c ml, honest s -> honest (fst (dstep s c ml))) ->
     (forall s c ml, honest s -> 0 <= ml -> zlen (snd (dstep s c ml)) <= ml) ->
     forall (calls : list (Z * nat)) (st st' : dstate S) (outs : bytes),
-      fresh st -> last_ok S honest (stages st) ->
+      fresh st -> last_ok honest (stages st) ->
       decompress_seq dstep st calls = Ok (st', outs) ->
-      clean st' /\ last_ok S honest (stages st').
+      clean st' /\ last_ok honest (stages st').
 Proof. intros S dstep honest. exact (clean_reachable S dstep (fun _ => 0) honest). Qed.
 Print Assumptions C20_clean_reachable.
 
@@ -57,9 +57,9 @@ Theorem C20_carry_never_grows :
     (forall s c ml, honest s -> honest (fst (dstep s c ml))) ->
     (forall s c ml, honest s -> 0 <= ml -> zlen (snd (dstep s c ml)) <= ml) ->
     forall (st st' : dstate S) (ml : Z) (rd : nat) (out : bytes),
-      buf_inv st -> last_ok S honest (stages st) -> 0 <= ml ->
+      buf_inv st -> last_ok honest (stages st) -> 0 <= ml ->
       decompress dstep st ml rd = Ok (st', out) ->
-      buf_inv st' /\ last_ok S honest (stages st') /\
+      buf_inv st' /\ last_ok honest (stages st') /\
       zlen out <= ml /\ tmp_len st st' out <= ml /\
       zlen (buf st') <= zlen (buf st) /\
       read_len st st' <= Z.max 0 (block_size st) /\ block_size st' = block_size st.
@@ -73,7 +73,7 @@ Theorem C20_worker_live_bounded :
     (forall s c ml, honest s -> honest (fst (dstep s c ml))) ->
     (forall s c ml, honest s -> 0 <= ml -> zlen (snd (dstep s c ml)) <= ml) ->
     forall (fuel : nat) (st st' : dstate S) (size mb : Z) (sched : list nat) (out : bytes) (pk : Z),
-      clean st -> last_ok S honest (stages st) -> 0 <= mb ->
+      clean st -> last_ok honest (stages st) -> 0 <= mb ->
       worker_peak dstep fuel st size mb sched = Ok (st', out, pk) ->
       pk <= 2 * mb + Z.max 0 (block_size st) /\ clean st' /\ block_size st' = block_size st.
 Proof. intros S dstep honest. exact (worker_live_bounded S dstep (fun _ => 0) honest). Qed.
@@ -211,9 +211,9 @@ Print Assumptions C20_compress_live_bounded.
 (* ---- the contracts are satisfiable: toy instances ---------------------------- *)
 Theorem C20_toy_live_bytes_bounded :
   forall (st st' : dstate toy_state) (ml : Z) (rd : nat) (out : bytes),
-    clean st -> last_ok toy_state mtoy_honest (stages st) -> 0 <= ml ->
+    clean st -> last_ok mtoy_honest (stages st) -> 0 <= ml ->
     decompress mtoy_dstep st ml rd = Ok (st', out) ->
-    clean st' /\ last_ok toy_state mtoy_honest (stages st') /\
+    clean st' /\ last_ok mtoy_honest (stages st') /\
     zlen out <= ml /\ zlen (buf st') <= ml /\
     managed st st' out <= 2 * ml + Z.max 0 (block_size st) /\
     live mtoy_held st st' out <= 2 * ml + Z.max 0 (block_size st) + sum_held mtoy_held (stages st') /\
@@ -247,7 +247,7 @@ Print Assumptions C20_toy_compress_live_bounded.
 (* hypotheses met by concrete non-trivial states *)
 Example C20_live_bytes_bounded_applies :
   let st := init_state [toy_st 0 0 []; toy_st 3 5 []] [100; 500] 9 4 [1; 2; 3; 4; 5; 6; 7; 8; 9] in
-  clean st /\ last_ok toy_state mtoy_honest (stages st) /\
+  clean st /\ last_ok mtoy_honest (stages st) /\
   exists st' out, decompress mtoy_dstep st 12 9 = Ok (st', out) /\ zlen out = 10 /\
                   managed st st' out = 24 /\ sum_held mtoy_held (stages st') = 2.
 Proof. exact live_bytes_bounded_applies. Qed.
